@@ -1,6 +1,7 @@
 package props
 
 import (
+	"google.golang.org/grpc"
 	"context"
 	"fmt"
 	"io"
@@ -43,6 +44,10 @@ func c09(tier string) []*explore.Scenario {
 				}
 			}
 		}
+	}
+	// many calls in flight when the read side fails (the statement puts no bound on their number)
+	for _, wf := range []bool{false, true} {
+		out = append(out, c09Many(40, 8, wf, 0), c09Many(64, 0, wf, 0), c09Many(0, 40, wf, 0), c09Many(3, 2, wf, 1))
 	}
 	return out
 }
@@ -146,6 +151,87 @@ func c09OneE(load string, k int, writeFails bool, capn, bound int, errv string) 
 				}
 			}
 			finishDirect(d, w, false)
+		},
+	}
+}
+
+// c09Many: nu unary calls (their handlers wait) and ns open streams are in flight when the
+// transport's read side fails (the write side fails too or stays writable); more calls are
+// started at that very moment and afterwards. Every one of them returns, none with a success.
+func c09Many(nu, ns int, writeFails bool, bound int) *explore.Scenario {
+	fam := "C09/many"
+	return &explore.Scenario{
+		Name: fmt.Sprintf("C09/many/unary=%d/streams=%d/writefails=%v", nu, ns, writeFails), Family: fam, Prop: "C09", Bound: bound, SelectCost: true,
+		Run: func() {
+			w := env.NewWorld()
+			d := env.NewDirect(w, env.DirectOpts{Pipe: env.PipeOpts{Cap: 256}})
+			d.Pipe.A.WriteFailsWithRead = writeFails
+			vsched.Settle()
+			gate := make(chan struct{})
+			var rs []*env.Rec
+			unary := func(tag string) {
+				r := w.Rec(tag, "Unary")
+				rs = append(rs, r)
+				w.Unaries[tag] = func(r *env.Rec, ctx context.Context, in string) (string, error) {
+					select {
+					case <-gate:
+					case <-ctx.Done():
+					}
+					return "late", nil
+				}
+				vsched.GoNamed("caller-"+tag, func() { w.CallUnary(d.CC, context.Background(), r, "x") })
+			}
+			stream := func(tag string) {
+				r := w.Rec(tag, "Bidi")
+				rs = append(rs, r)
+				vsched.GoNamed("caller-"+tag, func() {
+					cs := w.Open(d.CC, context.Background(), r)
+					if cs != nil {
+						if env.CSend(r, cs, r.Tag+".m0") == nil && env.CRecvOne(r, cs) == nil {
+							env.CRecvOne(r, cs) // waits for more without half-closing: only the failure can end it
+						}
+					}
+					r.CDone = true
+				})
+			}
+			for i := 0; i < nu; i++ {
+				unary(fmt.Sprintf("u%d", i))
+			}
+			for i := 0; i < ns; i++ {
+				w.Handlers[fmt.Sprintf("s%d", i)] = func(r *env.Rec, ss grpc.ServerStream) error {
+					env.HEcho(r, ss)
+					return nil
+				}
+				stream(fmt.Sprintf("s%d", i))
+			}
+			vsched.Quiesce()
+			vsched.Explore(true)
+			// the failure, racing with calls that start at the same moment
+			vsched.GoNamed("fail", func() { d.Pipe.A.FailReads() })
+			unary("race-u")
+			stream("race-s")
+			vsched.Quiesce()
+			unary("late-u")
+			stream("late-s")
+			vsched.Quiesce()
+			hung := 0
+			for _, r := range rs {
+				if !r.CDone {
+					hung++
+					if hung <= 3 {
+						vsched.Fail(fam+"|hang", "%d unary calls and %d streams in flight when the read side failed (write side fails=%v): call %s is blocked forever; %s", nu, ns, writeFails, r.Tag, r.Summary())
+					}
+					continue
+				}
+				if r.Kind == "Unary" && r.CErr == nil {
+					vsched.Fail(fam+"|fabricated", "call %s reports success (reply %q) although no reply can have arrived", r.Tag, r.CReply)
+				}
+				if r.Kind != "Unary" && r.COpenErr == nil && (r.CErr == nil || r.CErr == io.EOF) {
+					vsched.Fail(fam+"|fabricated", "stream %s ended without an error (%v) although its handler never finished: %s", r.Tag, r.CErr, r.Summary())
+				}
+			}
+			vsched.Obs("in flight %d+%d: hung=%d", nu, ns, hung)
+			close(gate)
 		},
 	}
 }
